@@ -6,9 +6,12 @@ import (
 	"bytes"
 	"encoding/json"
 	"fmt"
+	"os"
 	"strings"
+	"unicode/utf8"
 
 	"google.golang.org/protobuf/encoding/protowire"
+	"google.golang.org/protobuf/internal/strs"
 
 	vh "google.golang.org/protobuf/internal/zz_verif_vh"
 	"google.golang.org/protobuf/proto"
@@ -33,7 +36,13 @@ import (
 
 type C = vh.Ctx
 
-func main() { vh.Main("msg", run) }
+func main() {
+	if os.Getenv("VERIF_CHILD") == "det" {
+		childDet()
+		return
+	}
+	vh.Main("msg", run)
+}
 
 // root message types exercised (full names); every one is driven as generated type and as dynamicpb
 var rootTypes = []string{
@@ -119,6 +128,14 @@ func run(c *C) {
 		runDecode(c)
 	case "C07":
 		runMerge(c)
+	case "C05":
+		runDet(c)
+	case "C10":
+		runRequired(c)
+	case "C13":
+		runUtf8(c)
+	case "C30":
+		runEqual(c)
 	default:
 		panic("msg harness: unknown property " + c.Prop)
 	}
@@ -296,6 +313,27 @@ func runDecode(c *C) {
 				limit = []int{1, 2, 3, 5}[c.Rand.Intn(4)]
 			}
 			decodeCase(c, r, b, limit, c.Rand.Intn(5) == 0, kinds)
+		}
+	}
+	// hand-assembled map entries: repeated / missing / wrong-wire-type key and value records, foreign fields
+	for _, r := range rs {
+		var maps []protoreflect.FieldDescriptor
+		for i := 0; i < r.Flat.Root.Fields().Len(); i++ {
+			if fd := r.Flat.Root.Fields().Get(i); fd.IsMap() {
+				maps = append(maps, fd)
+			}
+		}
+		if len(maps) == 0 {
+			continue
+		}
+		r.Flat.Send(c)
+		for i := 0; i < c.N(60, 3000) && !c.Failed(); i++ {
+			fd := maps[c.Rand.Intn(len(maps))]
+			var b []byte
+			for k := 1 + c.Rand.Intn(2); k > 0; k-- {
+				b = protowire.AppendBytes(protowire.AppendTag(b, fd.Number(), protowire.BytesType), mapEntryBytes(c, fd))
+			}
+			decodeCase(c, r, b, 10000, false, "mapentry")
 		}
 	}
 	// nesting exactly at / around the recursion limit through every kind of message-valued field
@@ -533,8 +571,8 @@ func runMerge(c *C) {
 		r.Flat.Send(c)
 		for i := 0; i < per && !c.Failed(); i++ {
 			for _, dyn := range []bool{false, true} {
-				a := newFilled(c, r, dyn, Opts{FieldProb: 3, NegZero: false})
-				b := newFilled(c, r, dyn, Opts{FieldProb: 3, NegZero: false})
+				a := newFilled(c, r, dyn, Opts{FieldProb: 3, NegZero: true})
+				b := newFilled(c, r, dyn, Opts{FieldProb: 3, NegZero: true})
 				mergeCase(c, r, a, b, dyn)
 			}
 		}
@@ -571,4 +609,59 @@ func mergeCase(c *C, r *Root, a, b protoreflect.Message, dyn bool) {
 	}
 	c.Hist("family:" + family(dyn))
 	c.Case(r.Name+string(ba)+"|"+string(bb), len(ba) > 0 && len(bb) > 0)
+}
+
+func enforce(fd protoreflect.FieldDescriptor) bool { return strs.EnforceUTF8(fd) }
+func validUTF8(s string) bool                      { return utf8.ValidString(s) }
+
+// entryRecord appends one record for entry field fd (1 = key, 2 = value) with a right or wrong wire type.
+func entryRecord(c *C, b []byte, num protowire.Number, fd protoreflect.FieldDescriptor, wrong bool) []byte {
+	wt := map[protoreflect.Kind]protowire.Type{
+		protoreflect.BoolKind: 0, protoreflect.EnumKind: 0, protoreflect.Int32Kind: 0, protoreflect.Sint32Kind: 0, protoreflect.Uint32Kind: 0,
+		protoreflect.Int64Kind: 0, protoreflect.Sint64Kind: 0, protoreflect.Uint64Kind: 0,
+		protoreflect.Sfixed32Kind: 5, protoreflect.Fixed32Kind: 5, protoreflect.FloatKind: 5,
+		protoreflect.Sfixed64Kind: 1, protoreflect.Fixed64Kind: 1, protoreflect.DoubleKind: 1,
+		protoreflect.StringKind: 2, protoreflect.BytesKind: 2, protoreflect.MessageKind: 2, protoreflect.GroupKind: 3,
+	}[fd.Kind()]
+	if wrong {
+		wt = []protowire.Type{0, 1, 2, 5}[c.Rand.Intn(4)]
+	}
+	b = protowire.AppendTag(b, num, wt)
+	switch wt {
+	case 0:
+		b = protowire.AppendVarint(b, uint64(c.Rand.Intn(4)))
+	case 1:
+		b = protowire.AppendFixed64(b, uint64(c.Rand.Intn(4)))
+	case 5:
+		b = protowire.AppendFixed32(b, uint32(c.Rand.Intn(4)))
+	case 2:
+		if fd.Kind() == protoreflect.MessageKind && !wrong {
+			m := dynamicpb.NewMessage(fd.Message())
+			fill(c, m, 2, Opts{MaxDepth: 3}, nil)
+			sub, _ := partial.Marshal(m)
+			b = protowire.AppendBytes(b, sub)
+		} else {
+			b = protowire.AppendBytes(b, []byte(strsv[c.Rand.Intn(4)]))
+		}
+	}
+	return b
+}
+
+func mapEntryBytes(c *C, fd protoreflect.FieldDescriptor) []byte {
+	var b []byte
+	for k := c.Rand.Intn(5); k > 0; k-- {
+		switch c.Rand.Intn(7) {
+		case 0, 1:
+			b = entryRecord(c, b, 1, fd.MapKey(), false)
+		case 2:
+			b = entryRecord(c, b, 1, fd.MapKey(), true)
+		case 3, 4:
+			b = entryRecord(c, b, 2, fd.MapValue(), false)
+		case 5:
+			b = entryRecord(c, b, 2, fd.MapValue(), true)
+		default:
+			b = protowire.AppendVarint(protowire.AppendTag(b, protowire.Number(3+c.Rand.Intn(3)), 0), 7)
+		}
+	}
+	return b
 }
